@@ -430,7 +430,9 @@ class PossibleFragmentSpreadsChecker(ValidationVisitor):
     def enter_fragment_spread(self, node):
         name = node.name.value
         frag_type = self._fragment_types.get(name, None)
-        parent_type = self.type_info.type
+        # The enclosing selection set's (unwrapped) type, the current type
+        # may be a list or non-null wrapper around it.
+        parent_type = self.type_info.parent_type
 
         if (
             isinstance(frag_type, GraphQLCompositeType)
